@@ -20,6 +20,16 @@
 	    (((q)->lmq_get + (q)->lmq_len) & (q)->lmq_mask) == (q)->lmq_put)
 
 /* pointer shape: inline two-slot buffer, or a heap array of alloc slots */
+/* same, for a queue embedded in a larger (already fresh) object */
+#define LMQ_INNER_PRE(q)                                                     \
+	((((q)->lmq_alloc == 0 &&                                            \
+	      __CPROVER_pointer_in_range_dfcc(                               \
+	          &(q)->lmq_buf[0], (q)->lmq_msgs, &(q)->lmq_buf[0])) ||     \
+	     ((q)->lmq_alloc != 0 && (q)->lmq_alloc <= LMQ_MAXALLOC &&       \
+	         __CPROVER_is_fresh((q)->lmq_msgs,                           \
+	             (q)->lmq_alloc * sizeof(nng_msg *)))) &&                \
+	    LMQ_WF_SCALAR(q))
+
 #define LMQ_SHAPE_PRE(q)                                                     \
 	(__CPROVER_is_fresh((q), sizeof(nni_lmq)) &&                         \
 	    (((q)->lmq_alloc == 0 &&                                         \
